@@ -333,12 +333,22 @@ func (c *VirtualTable) Delete(value sqlite.Value) error {
 }
 
 func (c *VirtualTable) Begin() error {
+	fixedHere := false
 	if c.module.sc.writeTime.IsZero() {
 		c.module.sc.writeTime = time.Now()
 		c.module.sc.txFixedWriteTime = true
 		c.module.sc.ResetContext()
+		fixedHere = true
 	}
-	return toSqlite(c.common.Begin(c.module.sc.ctx))
+	err := toSqlite(c.common.Begin(c.module.sc.ctx))
+	if err != nil && fixedHere {
+		// SQLite calls neither xCommit nor xRollback after a failed xBegin:
+		// do not leave the transaction's write time on the connection
+		c.module.sc.writeTime = time.Time{}
+		c.module.sc.txFixedWriteTime = false
+		c.module.sc.ResetContext()
+	}
+	return err
 }
 
 func (c *VirtualTable) Commit() error {
